@@ -206,8 +206,8 @@ theorem tops_ne_of_nodup {l : List HTree} {s : HTree} {r : List HTree}
     (nd : (handlesList (l ++ s :: r)).Nodup) :
     (∀ k ∈ l, k.handle ≠ s.handle) ∧ (∀ k ∈ r, k.handle ≠ s.handle) := by
   obtain ⟨m1, m2, _⟩ := nodup_mid nd
-  exact ⟨fun k hk e => m1 _ (handle_mem_handles s) (e ▸ handle_mem_handlesList hk),
-    fun k hk e => m2 _ (handle_mem_handles s) (e ▸ handle_mem_handlesList hk)⟩
+  exact ⟨fun k hk e => m1 _ (fs_handle_mem_handles s) (e ▸ handle_mem_handlesList hk),
+    fun k hk e => m2 _ (fs_handle_mem_handles s) (e ▸ handle_mem_handlesList hk)⟩
 
 /-! ### `kidsOrdered` -/
 
